@@ -230,7 +230,7 @@ def config(sc, work, plug=PLUG):
         out_iv["active"] = dict(encoding=dict(datatype="i1"), attributes={})
     if sc.get("stampvar"):
         iv["stamp"] = "time"
-        out_iv["stamp"] = dict(encoding=dict(datatype="f8"), attributes={})
+        out_iv["stamp"] = dict(encoding=dict(datatype="f8"), attributes=dict(long_name="time stamp of the release row", units="seconds since reference_time", valid_min=0))
     for v in sc.get("out_drop", []):          # state variables that are NOT written (the output holds exactly the configured ones)
         out_iv.pop(v)
     conf = dict(
@@ -358,7 +358,18 @@ def decode_files(work, sc, pattern=None):
                 pv["release_time"], _ = _abs_time(d.variables["release_time"], d.variables["release_time"][:])
             if "src" in d.variables:
                 pv["src"] = [int(x) for x in np.ma.filled(d.variables["src"][:], NEG)]
-            files.append(dict(idx=int(m.group(1)) if m else -1, name=list(os.path.basename(fn)), recs=recs, ninst=ninst, sumcount=sumc, ref=ref, ghost=ghost,
+            def units_ref(vn):        # reference time (seconds on the harness epoch) named by "seconds since <time>", NEG if absent or unreadable
+                from .enc import secs_of
+                mm = re.match(r"\s*seconds\s+since\s+(.+)$", getattr(d.variables[vn], "units", "")) if vn in d.variables else None
+                try:
+                    return int(secs_of(mm.group(1).strip())) if mm else NEG
+                except Exception:
+                    return NEG
+            att = dict(rt_ref=units_ref("release_time"), stamp_ref=units_ref("stamp"),
+                       rt_long=("release_time" in d.variables and getattr(d.variables["release_time"], "long_name", "") == "particle release time"),
+                       src_long=("src" in d.variables and getattr(d.variables["src"], "long_name", "") == "release row"),
+                       stamp_min=("stamp" in d.variables and int(getattr(d.variables["stamp"], "valid_min", -1)) == 0))
+            files.append(dict(idx=int(m.group(1)) if m else -1, name=list(os.path.basename(fn)), recs=recs, ninst=ninst, sumcount=sumc, ref=ref, ghost=ghost, att=att,
                               pv_release_time=pv.get("release_time", []), pv_src=pv.get("src", []),
                               npart=int(len(d.dimensions["particle"])) if "particle" in d.dimensions else 0))
     return files
